@@ -7,12 +7,14 @@ import (
 	"bytes"
 	"fmt"
 	"os"
+	"sync"
 	"testing"
 	"time"
 
 	"pgregory.net/rapid"
 
 	"github.com/vmware/go-ipfix/pkg/entities"
+	"github.com/vmware/go-ipfix/pkg/exporter"
 
 	"verifharness/ev"
 	"verifharness/exph"
@@ -40,6 +42,10 @@ type Case struct {
 	// Refresh (udp): after the steps one template-refresh round is run (the body of the refresh
 	// tick); its messages are on the wire too and must be the templates sent so far.
 	Refresh bool `json:"refresh,omitempty"`
+	// Reuse: the application keeps one set object and one list of element objects per template and
+	// writes each record's values into them (setters, ResetValue for empty values) instead of
+	// building new elements per record. Such sessions carry one record per set.
+	Reuse bool `json:"reuse,omitempty"`
 }
 
 // SweepCase is one attempt to send a data set whose message would have Size bytes (around the
@@ -61,9 +67,12 @@ func TestMain(m *testing.M) {
 		if rp.Phase == "size_sweep" {
 			ev.RunReplay(rp, runSweep)
 		}
+		if rp.Phase == "slow_collector" {
+			ev.RunReplay(rp, runSlow)
+		}
 		ev.RunReplay(rp, runCase)
 	}
-	rec = ev.New("C02", "sessions of 1..8 SendSet calls (template sets through AddRecord / AddRecordWithExtraElements / AddRecordV2 / MakeTemplateSet, data sets of 1..n records) over tcp and udp, IPv4 and IPv6 loopback, elements from IANA, 29305, 56506 and a user-registered enterprise covering all 18 types; every byte is captured by a harness-owned socket and parsed by the reference codec; non-trivial = the session has an enterprise-specific element and (a variable-length value or >= 2 records in a set); distinct by hash of the case",
+	rec = ev.New("C02", "sessions of 1..8 SendSet calls (template sets through AddRecord / AddRecordWithExtraElements / AddRecordV2 / MakeTemplateSet, data sets of 1..n records, single-record data sets also through MakeDataSet; a quarter of the sessions reuse one set object and one list of element objects per template, writing values with the setters and ResetValue) over tcp and udp, IPv4 and IPv6 loopback, elements from IANA, 29305, 56506 and a user-registered enterprise covering all 18 types; every byte is captured by a harness-owned socket and parsed by the reference codec; non-trivial = the session has an enterprise-specific element and (a variable-length value or >= 2 records in a set); distinct by hash of the case",
 		"reference codec refipfix", "loopback sockets deliver what was written, in order")
 	code := m.Run()
 	rec.Write()
@@ -84,6 +93,8 @@ func runCase(c Case) *ev.Failure {
 	}
 	defer ep.CloseConnToCollector()
 	var tpls []Step
+	reused := map[uint16][]entities.InfoElementWithValue{}
+	reusedSet := entities.NewSet(false)
 	sent, total := 0, 0
 	for i, s := range c.Steps {
 		var want []byte
@@ -101,7 +112,16 @@ func runCase(c Case) *ev.Failure {
 			tpls = append(tpls, s)
 		} else {
 			tp := tpls[s.Of%len(tpls)]
-			set, err := exph.DataSet(tp.ID, tp.Fields, s.Recs, s.Path)
+			var set entities.Set
+			var err error
+			if c.Reuse {
+				if reused[tp.ID] == nil {
+					reused[tp.ID] = exph.NewElements(tp.Fields)
+				}
+				set, err = exph.DataSetReusing(reusedSet, reused[tp.ID], tp.ID, tp.Fields, s.Recs, s.Path)
+			} else {
+				set, err = exph.DataSet(tp.ID, tp.Fields, s.Recs, s.Path)
+			}
 			if err != nil {
 				return ev.Failf("step %d: building the data set failed: %v", i, err)
 			}
@@ -246,6 +266,86 @@ func runSweep(c SweepCase) *ev.Failure {
 	return nil
 }
 
+// SlowCase: a TCP collector that does not read for PauseMs while the exporter sends N data
+// messages of about Size bytes each (enough to fill the socket buffers, so a send blocks), with
+// the exporter's connection check running every IntervalMs.
+type SlowCase struct {
+	PauseMs    int `json:"pause_ms"`
+	N          int `json:"n"`
+	Size       int `json:"size"`
+	IntervalMs int `json:"interval_ms"`
+}
+
+// runSlow: whatever happens to the individual sends, the byte stream the collector finally reads
+// must tile into well-formed messages, and the messages of the successful sends are all there, in
+// order (a send that reports an error is not judged, the bytes it may have left behind are).
+func runSlow(c SlowCase) *ev.Failure {
+	peer, err := exph.NewPeer("tcp", false)
+	if err != nil {
+		return nil
+	}
+	defer peer.Close()
+	peer.SetReadDelay(time.Duration(c.PauseMs) * time.Millisecond)
+	ep, err := exporter.InitExportingProcess(exporter.ExporterInput{CollectorAddress: peer.Addr, CollectorProtocol: "tcp", ObservationDomainID: 9,
+		TempRefTimeout: 3600, CheckConnInterval: time.Duration(c.IntervalMs) * time.Millisecond})
+	if err != nil {
+		return ev.Failf("InitExportingProcess: %v", err)
+	}
+	f := []ref.Field{glue.UserField(ref.TU32), glue.UserField(ref.TString)}
+	h := ref.Header{Domain: 9}
+	var want [][]byte
+	total := 0
+	ts, err := exph.TemplateSet(256, f, 0)
+	if err != nil {
+		return ev.Failf("template set: %v", err)
+	}
+	if n, err := ep.SendSet(ts); err != nil {
+		return ev.Failf("SendSet(template): %v", err)
+	} else {
+		want = append(want, ref.TemplateMessage(h, ref.Template{ID: 256, Fields: f}))
+		total += n
+	}
+	failed := 0
+	var firstErr error
+	for k := 0; k < c.N; k++ {
+		r := [][]ref.Value{{{U: uint64(k)}, {B: bytes.Repeat([]byte{byte('a' + k%26)}, c.Size)}}}
+		ds, err := exph.DataSet(256, f, r, k%3)
+		if err != nil {
+			return ev.Failf("data set: %v", err)
+		}
+		n, err := ep.SendSet(ds)
+		if err != nil {
+			failed++
+			if firstErr == nil {
+				firstErr = fmt.Errorf("send %d of %d: %v (%d bytes written)", k, c.N, err, n)
+			}
+			continue
+		}
+		want = append(want, ref.DataMessage(h, ref.Template{ID: 256, Fields: f}, r))
+		total += n
+	}
+	peer.WaitStream(total, waitLimit)
+	ep.CloseConnToCollector()
+	peer.WaitStream(1<<40, 2*time.Second) // until the end of the stream
+	msgs, rest := peer.Messages()
+	if len(rest) != 0 {
+		return ev.Failf("collector paused %d ms, %d sends of ~%d bytes (%d reported an error; first: %v): the stream ends with %d bytes that do not frame as a message, after %d framed messages", c.PauseMs, c.N, c.Size, failed, firstErr, len(rest), len(msgs))
+	}
+	wi := 0
+	for k, m := range msgs {
+		if _, sets, err := ref.ParseMessage(m); err != nil || len(sets) != 1 {
+			return ev.Failf("collector paused %d ms (%d of %d sends reported an error; first: %v): message %d on the wire is not well-formed: %v", c.PauseMs, failed, c.N, firstErr, k, err)
+		}
+		if wi < len(want) && exph.SameExceptTimeSeq(m, want[wi]) {
+			wi++
+		}
+	}
+	if wi != len(want) {
+		return ev.Failf("collector paused %d ms (%d of %d sends reported an error; first: %v): %d sends succeeded but only %d of their messages are on the wire, in order, among %d framed messages", c.PauseMs, failed, c.N, firstErr, len(want), wi, len(msgs))
+	}
+	return nil
+}
+
 func firstDiff(a, b []byte) int {
 	for i := 0; i < len(a) && i < len(b); i++ {
 		if a[i] != b[i] && !(i >= 4 && i < 12) {
@@ -274,6 +374,7 @@ func genCase(t *rapid.T) Case {
 		Domain: rapid.SampledFrom([]uint32{0, 1, 7, 0x80000000, 0xFFFFFFFF, 123456}).Draw(t, "domain"),
 	}
 	c.Refresh = c.Proto == "udp" && rapid.Bool().Draw(t, "refresh")
+	c.Reuse = rapid.IntRange(0, 3).Draw(t, "reuse") == 0
 	limit := 65535
 	if c.Proto == "udp" {
 		limit = 65507
@@ -303,16 +404,29 @@ func genCase(t *rapid.T) Case {
 			c.Steps = append(c.Steps, s)
 			continue
 		}
-		s := Step{Of: rapid.IntRange(0, len(tpls)-1).Draw(t, "of"), Path: rapid.IntRange(0, 2).Draw(t, "dpath")}
+		s := Step{Of: rapid.IntRange(0, len(tpls)-1).Draw(t, "of"), Path: rapid.IntRange(0, 3).Draw(t, "dpath")}
 		tp := tpls[s.Of]
 		maxVar := rapid.SampledFrom([]int{40, 300, 300, 2000, 70000}).Draw(t, "maxvar")
 		want := rapid.IntRange(1, 6).Draw(t, "nrec")
 		if rapid.IntRange(0, 9).Draw(t, "many") == 0 {
 			want = rapid.IntRange(7, 200).Draw(t, "nrecmany")
 		}
+		if c.Reuse {
+			// a record keeps references to the element objects until the set is sent, so an
+			// application that reuses them sends one record per set (as the known users do)
+			want = 1
+		}
 		size := 20
 		for k := 0; k < want; k++ {
 			r := gen.Record(t, tp.Fields, maxVar)
+			if c.Reuse {
+				// optional fields left empty in some records: the reused element is reset, not set
+				for fi, f := range tp.Fields {
+					if f.Len == ref.VarLen && rapid.IntRange(0, 3).Draw(t, "empty") == 0 {
+						r[fi].B = nil
+					}
+				}
+			}
 			l := len(ref.EncodeDataRecord(nil, tp.Fields, r))
 			if size+l > limit {
 				// shrink the variable-length values of this record until it fits
@@ -363,7 +477,7 @@ func classify(c Case) (bool, []string) {
 		}
 	}
 	cl := []string{"proto_" + c.Proto}
-	for k, b := range map[string]bool{"enterprise_element": ent, "user_registered_element": user, "variable_length_value": varlen, "multi_record_set": multi, "value_255_or_longer": long, "ipv6_loopback": c.V6, "refresh_round": c.Refresh} {
+	for k, b := range map[string]bool{"enterprise_element": ent, "user_registered_element": user, "variable_length_value": varlen, "multi_record_set": multi, "value_255_or_longer": long, "ipv6_loopback": c.V6, "refresh_round": c.Refresh, "application_reuses_its_element_objects": c.Reuse} {
 		if b {
 			cl = append(cl, k)
 		}
@@ -407,6 +521,34 @@ func TestC02(t *testing.T) {
 				rec.Violation("size_sweep", c, f.Msg)
 				t.Fatalf("size sweep: %s", f.Msg)
 			}
+		}
+	}
+	// every run: a collector that is slow to read, so that sends block on a full socket while the
+	// connection check keeps running
+	slow := []SlowCase{{PauseMs: 400, N: 300, Size: 60000, IntervalMs: 10}, {PauseMs: 250, N: 400, Size: 30000, IntervalMs: 5}}
+	if rec.Thorough() {
+		for k := 0; k < 10; k++ {
+			slow = append(slow, SlowCase{PauseMs: 100 + 60*k, N: 200 + 40*k, Size: 65000 - 6000*k, IntervalMs: 1 + 3*k})
+		}
+	}
+	slowFails := make([]*ev.Failure, len(slow))
+	var wg sync.WaitGroup
+	for k := range slow {
+		wg.Add(1)
+		go func(k int) { defer wg.Done(); slowFails[k] = runSlow(slow[k]) }(k)
+		if k%4 == 3 {
+			wg.Wait()
+		}
+	}
+	wg.Wait()
+	for k, c := range slow {
+		rec.Case(ev.Hash(c), true, "slow_collector")
+		if k == 0 {
+			rec.Sample("slow_collector", c)
+		}
+		if slowFails[k] != nil {
+			rec.Violation("slow_collector", c, slowFails[k].Msg)
+			t.Fatalf("slow collector: %s", slowFails[k].Msg)
 		}
 	}
 	ev.Rapid(t, rec, "sessions", rec.Scale(4000, 2000000), genCase, func(c Case) *ev.Failure {
